@@ -516,7 +516,7 @@ def judge_kernel(num, modes, inv, hist, grid, obs):
         oth = others[0]
         for start in starts:
             cands = {"own": C.expected_rect(kern, clb, inv.goff, grid, start)}
-            if modes[oth][1] and not moved:
+            if modes[oth][1]:
                 cands["array"] = array
             if inv.kernels[oth][0] != kern[0]:
                 try:
